@@ -823,6 +823,11 @@ func childMain(args []string) {
 	c := newCtx(id, tier, phase, out, seed)
 	c.flush(false)
 	run(c)
+	if n := srvStarted.Load(); n > 0 {
+		c.Count("harness/servers_started", n)
+		c.Count("harness/servers_whose_mux_was_attached_before_the_routes_were_registered", srvRouterFirst.Load())
+		c.Count("harness/servers_with_two_hour_read_and_write_timeouts", srvLongTimeouts.Load())
+	}
 	c.flush(true)
 	os.Exit(0)
 }
